@@ -24,7 +24,7 @@ for p in props:
             "text": pc.get("level_text", "Bounded symbolic model checking of the real code: every obligation is decided by z3 for all inputs inside the stated bounds (unsat = holds, sat = concrete counterexample replayed against the compiled code). Not a proof: bounds and stubs are listed in the evidence."),
             "design_ref": pc.get("design_ref", "DESIGN.md section 5, " + pid),
         },
-        "level_note": pc.get("level_note", "Trusted: engine intrinsics for the SDK environment (validated by native replay of witnesses on every run), z3, hash functions as injective UFs, codecs as inverse pairs, BaseApp atomicity; bounds: " + "; ".join(pc.get("bounds", []))),
+        "level_note": pc.get("level_note", "Trusted: engine intrinsics for the SDK environment (validated by native replay of witnesses on every run), z3, hash functions as injective UFs, codecs as inverse pairs, BaseApp atomicity; bounds: " + "; ".join(pc.get("bounds", [])) + " || assumptions / not decided: " + "; ".join(pc.get("assumptions", []))),
     })
 claimed = {c["property_id"] for c in checks}
 m = {
@@ -32,7 +32,7 @@ m = {
     "setup_cmd": "cd /verif && ./setup.sh",
     "hooks": {
         "guard": "verif",
-        "enable": "no source hooks are used: harnesses and the vp intrinsic package are injected through go/packages and go build overlays (-overlay), nothing is written into /repo",
+        "enable": "no source hooks are committed to /repo and no build tag is needed: harnesses, the vp / oracle packages and the dependency stubs (one injected statement at the top of a third-party function, listed in harness/<group>/stubs.json; for C18 also of tibc-go's own ethash seal wrapper verifyCascadingFields, the switch that property's hook_needed describes) are injected through go/packages and `go test -c -overlay` build overlays generated from /repo's current working tree on every run",
         "baseline_off_cmd": "cd /repo && GOFLAGS=-mod=mod GOPROXY=off GOSUMDB=off go test -vet=off -count=1 -timeout 25m ./...",
         "source_commits": [],
         "add_only": True,
